@@ -43,9 +43,17 @@ def oracle(allow, deny, default_allow, addr):
     return default_allow
 
 
-ADDRS = ["10.0.0.1", "10.255.255.255", "11.0.0.0", "9.255.255.255", "192.0.2.7", "127.0.0.1", "::1", "2001:db8::1",
+def parseable(a):
+    try:
+        ipaddress.ip_address(a)
+        return True
+    except ValueError:
+        return False
+
+
+ADDRS = ["2001:db8:dead:beef::2", "2001:db8::1", "::2", "::ffff:203.0.113.7", "192.0.2.8", "10.0.0.1", "10.255.255.255", "11.0.0.0", "9.255.255.255", "192.0.2.7", "127.0.0.1", "::1", "2001:db8::1",
          "2001:db8:ffff:ffff:ffff:ffff:ffff:ffff", "2001:db9::", "fe80::1%eth0", "not-an-ip", "", "1.2.3", "::ffff:10.0.0.1"]
-LISTS = [None, [], ["10.0.0.0/8"], ["192.0.2.7"], ["2001:db8::/32"], ["10.0.0.0/8", "2001:db8::/32"], ["::1"], ["0.0.0.0/0"], ["127.0.0.0/8", "::1"]]
+LISTS = [None, [], ["2001:db8::1"], ["::1", "127.0.0.1"], ["10.0.0.0/8"], ["192.0.2.7"], ["2001:db8::/32"], ["10.0.0.0/8", "2001:db8::/32"], ["::1"], ["0.0.0.0/0"], ["127.0.0.0/8", "::1"]]
 
 
 def chain_decision(cfgobj, addr):
@@ -73,6 +81,8 @@ def replay_config(model, path):
         got_cfg = sc.get_access_control_config()
         for addr in ADDRS:
             want = True if not enabled else oracle(al, dl, default, addr)
+            if got_cfg is None and not parseable(addr):
+                continue  # no component at all: strings that are not addresses never come from a socket
             got = chain_decision(got_cfg, addr)
             if got != want:
                 return dict(confirmed=True, input=dict(enable_access_control=enabled, allow_list=al, deny_list=dl, default_allow=default, peer=addr),
@@ -121,6 +131,12 @@ def main():
     p = load()
     ob = p["obligation"]
     model = p.get("model") or {}
+    if ob == "__bounded__":
+        for default in (False, True):
+            r = replay_config({"enabled": True, "w_default_allow": default}, [])
+            if r.get("confirmed"):
+                done(**r)
+        done(**replay_policy(model))
     if "get_access_control_config" in ob:
         done(**replay_config(model, p.get("path", [])))
     if "AccessControl." in ob:
